@@ -29,6 +29,10 @@ P_rcust == (1 :> <<rcu(1), dh>>) @@ (2 :> <<st(1)>>)
 P_rculd == (1 :> <<rcu(1), dh>>) @@ (2 :> <<ld(1), dg>>) @@ (3 :> <<st(1)>>)
 \* two containers: reader of 1 on the fallback path while a writer of 2 walks its node
 P_2c == (1 :> <<ld(1), dg, ld(2), dg>>) @@ (2 :> <<st(2), st(1)>>)
+\* help collision: the reader's transaction a writer looked at is completed by the OTHER writer, the reader starts the
+\* next one (on the first writer's container) before that writer looks again
+P_hc == (1 :> <<ld(1), dg, ld(2), dg>>) @@ (2 :> <<st(2)>>) @@ (3 :> <<st(1)>>)
+P_hc1 == (1 :> <<ld(1), dg, ld(1), dg>>) @@ (2 :> <<st(1)>>) @@ (3 :> <<st(1)>>)
 \* thread churn: thread 1 lives twice, writer meanwhile; thread 3 drops a guard left by thread 1
 P_churn == (1 :> <<ld(1), dg, ex, ld(1), dg, ex>>) @@ (2 :> <<st(1)>>)
 P_churn2 == (1 :> <<ld(1), ex>>) @@ (2 :> <<st(1)>>) @@ (3 :> <<ld(1), dg, dother, ex>>)
